@@ -15,9 +15,10 @@
        in isolation with the guard that surrounds it in the source (pinned by tools/gens/gen_partial.py);
      * that the graphs of deferred objects a real program builds are finite and closed (the theorems about wait()
        hold for every finite graph, but that programs only build such graphs is not proved);
-     * Python's recursion limit: the model's recursion is bounded by fuel only, CPython's by ~1000 frames; e.g. a chain
-       of 1000 definitions 'x_k = x_{k-1} + 1' written in reverse order dies with RecursionError in the real code --
-       outside G by the stated resource bounds, and invisible to these theorems;
+     * Python's recursion limit and memory: the model's recursion is bounded by fuel only, CPython's by ~1000 frames.  Since
+       fix 291322a a RecursionError / MemoryError inside compile_and_link_files is turned into the reported error
+       'too-complex' (a refusal with a diagnostic, which C08 allows): e.g. the use-first product chain of 60 definitions.
+       That wrapper is not modelled; deep nesting in the parser (outside G's depth 8) is not guarded by it;
      * memory and time: C08_wait_terminates bounds the number of steps of the loop, not the cost of a step
        (integer sizes, polynomial substitution), cf. the exponential non-additive rings found by the exploration. *)
 From Coq Require Import String List ZArith NArith Bool.
